@@ -140,6 +140,17 @@ def run(ctx: Ctx) -> int:
         brows.append({"id": f"b{j}", "t": "bytes", "src": src, "hex": data.hex() if len(data) <= 200 else data[:200].hex() + "...", **res})
         ctx.count(1)
         ctx.distinct(("bytes", src, len(data) if len(data) < 70 else len(data) // 1000))
+    # crafted hostile shapes: many towers, each a few octets long but announcing thousands of floors, followed by zero octets
+    # (a decoder that resumes after a failed tower re-walks the tail once per tower: quadratic in the reply size)
+    import struct as _st
+    for j, n in enumerate((60, 250, 1000) if not ctx.thorough else (60, 250, 1000, 3000)):
+        for flo in (0x1010, 0xFFFF, 3):
+            data = b"\x00" * 20 + _st.pack("<I", n) + _st.pack("<QQQ", 4, 0, n) + b"".join(_st.pack("<Q", 3 + i) for i in range(n))
+            data += b"".join(_st.pack("<QIH", 2, 2, flo) + b"\x00" * 2 for _ in range(n)) + b"\x00" * (16 * n) + _st.pack("<I", 0)
+            res = process(data, prefix)
+            brows.append({"id": f"h{j}-{flo}", "t": "bytes", "src": f"many short towers x {flo} floors", "hex": data[:200].hex() + "...", **res})
+            ctx.count(1)
+            ctx.distinct(("hostile-towers", n, flo))
     tracemalloc.stop()
     bad, stats = validate(ctx, "TraceEpm", "TraceEpm.cfg", rows, chunk=ctx.pick(500, 1500), what="reply")
     bad2, _ = validate(ctx, "TraceEpm", "TraceEpm.cfg", brows, chunk=5000, what="bytes")
